@@ -854,17 +854,26 @@ func (s *clientSocket) _sendBuffers(volatile, forceSend bool, ackID *uint64, buf
 			}
 		}
 
+		if forceSend {
+			s.manager.packet(packets...)
+			return
+		}
+
+		verifhook.Yield("cs.gateDecided")
+		// The decision and the append are one critical section with emitBuffered's flush:
+		// otherwise a packet could be appended after the flush and stay in sendBuffer,
+		// or overtake the packets that still wait in it.
+		s.sendBufferMu.Lock()
 		s.stateMu.RLock()
 		// While the server's reply to our CONNECT packet is pending, the namespace
 		// is not joined yet: the server closes the whole connection if it receives a
 		// packet for it. Such packets wait in sendBuffer and are sent by emitBuffered.
-		sendImmediately := s.state == clientSocketConnStateConnected
+		sendImmediately := s.state == clientSocketConnStateConnected && len(s.sendBuffer) == 0
 		s.stateMu.RUnlock()
-		verifhook.Yield("cs.gateDecided")
-		if sendImmediately || forceSend {
+		if sendImmediately {
 			s.manager.packet(packets...)
+			s.sendBufferMu.Unlock()
 		} else if !volatile {
-			s.sendBufferMu.Lock()
 			buffers := make([]sendBufferItem, len(packets))
 			for i := range buffers {
 				buffers[i] = sendBufferItem{
@@ -875,6 +884,7 @@ func (s *clientSocket) _sendBuffers(volatile, forceSend bool, ackID *uint64, buf
 			s.sendBuffer = append(s.sendBuffer, buffers...)
 			s.sendBufferMu.Unlock()
 		} else {
+			s.sendBufferMu.Unlock()
 			s.debug.Log("Packet is discarded")
 		}
 	}
